@@ -46,6 +46,11 @@ TPostFail == Is("FakePostFail") /\ (IF E.final THEN (\E k \in 1..Len(w[E.id]) : 
                /\ Step
 TPost     == Is("FakePost") /\ E.ok /\ (\E k \in 1..Len(w[E.id]) : w[E.id][k] = "upload" /\ D!WStep(E.id, k))
                /\ Step
+\* the same response uploaded once more after it had been received completely (an upload attempt repeated by the
+\* agent's retry logic): the uploads are C06's concern; for de-duplication this changes nothing
+TPostAgain == Is("FakePost") /\ E.ok /\ (\E k \in 1..Len(w[E.id]) : w[E.id][k] = "done")
+              /\ ~(\E k \in 1..Len(w[E.id]) : w[E.id][k] = "upload") /\ Stutter
+               /\ Step
 TOther    == (Is("PollCheck") \/ Is("Healthy") \/ Is("WForward") \/ Is("WServed") \/ Is("WClosed")
               \/ Is("SWHeader") \/ Is("SWWrite") \/ Is("SWClose") \/ Is("SerStart") \/ Is("SerDone")
               \/ Is("Attempt") \/ Is("AttemptStatus") \/ Is("AttemptErr") \/ Is("BrsRead") \/ Is("BrsSeek")
@@ -56,7 +61,7 @@ TOther    == (Is("PollCheck") \/ Is("Healthy") \/ Is("WForward") \/ Is("WServed"
 TFinal    == Is("Final") /\ Stutter /\ E.agent_alive
              /\ (\A i \in TIds : Len(w[i]) > 0 => (calls[i] = 1 /\ (served[i] = 1 \/ \E k \in 1..Len(w[i]) : w[i][k] = "failed")))
                /\ Step
-TNext == TReset \/ TFakeList \/ TListOK \/ TDedup \/ TSpawn \/ TFetch \/ TBackend \/ TPost \/ TPostFail \/ TOther \/ TFinal
+TNext == TReset \/ TFakeList \/ TListOK \/ TDedup \/ TSpawn \/ TFetch \/ TBackend \/ TPost \/ TPostAgain \/ TPostFail \/ TOther \/ TFinal
 TSpec == TInit /\ [][TNext]_<<dvars, l>>
 
 AtMostOnce == D!AtMostOnce
